@@ -39,7 +39,8 @@ def matrix_cases(tier):
 def large_matrix_cases(tier):
     """16-45 states (sparse / dense / ragged action sets; inferred and explicit state lists)"""
     from vpm.gen.mdp import large_mdp_specs
-    return st.one_of(large_mdp_specs("discounted"), large_mdp_specs("negative"), large_mdp_specs("dproper"))
+    return st.one_of(large_mdp_specs("discounted"), large_mdp_specs("negative"), large_mdp_specs("dproper"),
+                     large_mdp_specs("discounted", min_states=101, max_states=120, max_actions=2, max_out=2))
 
 
 def _vi(mdp):
